@@ -57,6 +57,8 @@ type sess struct {
 	manifests map[string][]string // manifest chunk file id -> data chunk file ids
 	expiredPresent bool           // C19: an enumeration is under way during which entries expired
 	zombies        map[string]bool // directories that may still physically hold entries the model has expired
+	curFired       string          // store call that was failed inside the current operation ("" = none)
+	excusedOrphans map[string]bool // entries left under a deleted parent by ignore_recursive_error + injected store failure
 	sigs           []int32         // signatures the next request carries (C36: a change that came from the target cluster)
 	fromOther      bool
 }
@@ -70,6 +72,7 @@ type opRole struct {
 	plain        bool   // the written entry carries no hard link id
 	linkedInside bool   // recursive delete of a directory that contains hard-linked names
 	data         bool
+	ign          bool // delete: the client set ignore_recursive_error
 }
 
 // causeKey maps a discrepancy found after the current operation to (class, key).
@@ -274,6 +277,7 @@ func (s *sess) snapFromStep(st *simkit.Step, p string) (*snap, map[string][]byte
 func (s *sess) step(st *simkit.Step) bool {
 	r := s.r
 	s.opIndex++
+	s.curFired = ""
 	s.expireModel()
 	if s.r.Plan.C("noupd") == 1 {
 		// this run keeps clear of operations that overwrite an existing entry (update events)
@@ -402,7 +406,7 @@ func (s *sess) doDelete(st *simkit.Step) {
 	if ign {
 		s.lastOp += " ignore-recursive-error"
 	}
-	s.role = opRole{kind: "delete", data: data, linkedInside: before.isDir(p) && before.hasLinkedInside(p)}
+	s.role = opRole{kind: "delete", data: data, ign: ign, linkedInside: before.isDir(p) && before.hasLinkedInside(p)}
 	if n := before.nodes[p]; n != nil && n.link != nil && len(n.link.names) > 1 {
 		s.role.srcLinked = true // a hard-linked name that is not the last one
 	}
@@ -536,6 +540,7 @@ func (s *sess) doRestart() {
 	s.r.Fault("restart")
 	s.lastOp = "restart"
 	s.role = opRole{kind: "restart"}
+	s.curFired = ""
 	if s.gc != nil {
 		s.gc.requested = false
 		s.gc.op = nil
@@ -627,6 +632,7 @@ func (s *sess) observe(extra ...*model) *observation {
 		listed := o.entries[p]
 		switch {
 		case err == filer_pb.ErrNotFound || (err == nil && e == nil):
+			delete(s.excusedOrphans, p)
 			if listed != nil {
 				r.Violate("lookup-misses-listed-entry", s.lastOp, "%s is returned by the listing of %s but a direct lookup says not found", p, parentOf(p))
 				return nil
@@ -636,12 +642,50 @@ func (s *sess) observe(extra ...*model) *observation {
 			return nil
 		default:
 			got := snapOf(e)
+			if listed != nil {
+				delete(s.excusedOrphans, p)
+			}
 			if listed == nil {
 				par := parentOf(p)
-				if par != "/" && (o.entries[par] == nil || !o.entries[par].IsDir) {
+				underExcused := false
+				for a := par; a != "/" && a != ""; a = parentOf(a) {
+					if s.excusedOrphans[a] {
+						underExcused = true
+					}
+				}
+				if underExcused {
+					// created below an excused left-over directory: as unreachable as that directory
+					if s.excusedOrphans == nil {
+						s.excusedOrphans = map[string]bool{}
+					}
+					s.excusedOrphans[p] = true
+				}
+				if par != "/" && (o.entries[par] == nil || !o.entries[par].IsDir || underExcused) {
 					what := "does not exist"
 					if o.entries[par] != nil {
 						what = "is a file"
+					}
+					if s.excusedOrphans[p] || (s.role.kind == "delete" && s.role.ign && s.curFired != "") {
+						// the client asked to ignore errors inside the recursion and a store failure was
+						// injected into this very operation: an entry left behind under a deleted parent is
+						// what that flag means, not a violation of the statement. It stays excused (and is
+						// adopted by the model should a later operation make it reachable again).
+						if !s.excusedOrphans[p] {
+							if s.excusedOrphans == nil {
+								s.excusedOrphans = map[string]bool{}
+							}
+							s.excusedOrphans[p] = true
+							r.Probe("orphan-left-by-ignored-recursive-error-under-store-failure")
+							r.Log("observation: %s [%s] stays in the store under the deleted %s (ignore_recursive_error + injected %s failure)", p, got.brief(), par, s.curFired)
+						}
+						// it is part of what is stored: later operations on that path meet it
+						o.entries[p] = got
+						for _, m := range append(extra, s.model) {
+							if m != nil && m.nodes[p] == nil {
+								m.nodes[p] = &mnode{s: got.clone()}
+							}
+						}
+						continue
 					}
 					r.Violate("orphan-entry", s.lastOp, "entry %s [%s] exists in the store but its parent %s %s", p, got.brief(), par, what)
 				} else {
@@ -696,6 +740,12 @@ func (s *sess) compare(m *model, o *observation) *discrepancy {
 		}
 	}
 	for _, p := range sortedKeys(o.entries) {
+		if m.nodes[p] == nil && s.excusedOrphans[p] {
+			// an excused left-over became reachable again (its parent was re-created): the model adopts it
+			m.nodes[p] = &mnode{s: o.entries[p].clone()}
+			s.r.Probe("excused-orphan-reachable-again")
+			continue
+		}
 		if m.nodes[p] == nil {
 			return &discrepancy{"extra-entry", kindWord(o.entries[p]), fmt.Sprintf("%s [%s] exists but should not", p, o.entries[p].brief())}
 		}
@@ -785,6 +835,7 @@ func (s *sess) checkAgainst(m *model, tag string) {
 func (s *sess) settle(out outcome, why string, err error, run *runaway, before, after *model) {
 	r := s.r
 	fired, firedAt := s.n.st.disarm()
+	s.curFired = fired
 	okS := "ok"
 	if err != nil {
 		okS = "fail"
@@ -938,6 +989,14 @@ func (s *sess) settleFaulted(out outcome, err error, before, after *model, fired
 	if err == nil {
 		r.Probe("success-despite-store-failure")
 		if d := s.compare(after, o); d != nil {
+			if s.role.kind == "delete" && s.role.ign {
+				// the client asked to ignore errors inside the recursive delete: an incomplete result
+				// under an injected store failure is what the flag means (recorded, model re-synchronised)
+				r.Probe("incomplete-delete-excused-by-ignore-recursive-error")
+				r.Log("observation: %s reported success after the injected %s failure, but: %s", s.lastOp, fired, d.msg)
+				s.model = s.modelFromObs(o, after)
+				return
+			}
 			r.Violate("acknowledged-but-incomplete", s.lastOp+":"+fired+":"+d.field, "store call %s failed, the operation still reported success, but: %s", fired, d.msg)
 			return
 		}
